@@ -608,3 +608,53 @@ def _handover_replay_plan(ob):
         return None
     # head and one whole frame delivered in ONE segment: the frame must come out of the frame channel
     return 'h11c', {'driver': 'handover', 'args': {'side': 'connect' if 'h11c_connect' in ob.target else 'listener'}}, lambda o: o.get('frame_received') is False
+
+
+# =========================================================================== HTTP text decoders fed by peers (panic sites only)
+
+def spec_http_readers(ck):
+    """HttpRequest::read_from (client bytes), HttpResponse::read_from (upstream proxy bytes), TargetAddress::from_str (the CONNECT
+    target) and the whole h11c_handshake on arbitrary bytes: no panic site is reachable.  str splitting is over-approximated
+    (any number of pieces of any content), which is sound for this question."""
+    import harness
+    from specs.codec import new_stream
+    for recv in ('HttpRequest', 'HttpResponse'):
+        fn = ck.find(lambda r=recv: ck.db.method(r, 'read_from'), recv + '::read_from')
+        if fn is None:
+            continue
+        ex = ck.engine(loop_bound=5, call_depth=8)
+        ex.benign_havoc = harness.IRRELEVANT
+        st = State()
+        inp = Bytes.symbolic('peer_bytes', 'in')
+        ex.assume(st, z3.ULE(inp.len, BV(24, 64)))
+        scell = new_stream(ex, st, 'peer', inp)
+        ex.inputs = {'peer_bytes': inp}
+        outs = run_async(ex, st, fn, [Ref(scell, ())])
+        for f in ex.findings:
+            if not hasattr(f, 'target'):
+                f.target = 'http ' + recv
+        ck.absorb(ex, recv + '::read_from', [o for o, _ in outs])
+    fn = ck.find(lambda: ck.db.method('TargetAddress', 'from_str', trait='FromStr'), 'TargetAddress::from_str')
+    if fn is not None:
+        ex = ck.engine(loop_bound=4)
+        ex.benign_havoc = harness.IRRELEVANT
+        st = State()
+        s = Bytes.symbolic('connect_target', 'str')
+        ex.assume(st, z3.ULE(s.len, BV(24, 64)))
+        ex.inputs = {'connect_target': s}
+        outs = ex.call_fn(st, fn, [Ref(st.alloc(s), ())])
+        for f in ex.findings:
+            if not hasattr(f, 'target'):
+                f.target = 'http target'
+        ck.absorb(ex, 'TargetAddress::from_str', outs)
+    ck.plans.append(_http_replay_plan)
+    ck.bounds['http-readers'] = 'request / response head of <= 24 bytes in any segmentation, <= 5 header lines; CONNECT target string <= 24 bytes'
+
+
+def _http_replay_plan(ob):
+    t = ob.target or ''
+    if not t.startswith('http ') or ob.label.startswith('C0'):
+        return None
+    f = ob.finding
+    hx = ((f.inputs or {}).get('peer_bytes') or (f.inputs or {}).get('connect_target') or {}).get('hex', '') if f is not None else ''
+    return 'h11c', {'driver': 'http_head', 'args': {'which': t.split(' ', 1)[1], 'bytes': hx}}, lambda o: bool(o.get('panicked'))
